@@ -10,6 +10,10 @@ def run(fb, rep, tier, cfg):
         "which the checker's Expr::Infix case produces a type (read from the string literals it compares, in either of the two "
         "recognised forms) is a subset of the literals Compiler::compile_primitive maps to an instruction; any other accepted "
         "operator reaches `load_identifier` -> ice!(\"Undefined variable\") on a program the checker accepted. Everything else in "
-        "C02 is not decided.")
+        "C02 is not decided. R2g: GADT refinement bookkeeping — refinement of rigid variables is enabled only in Typecheck::refines, "
+        "the skolems it may bind are recorded by a deep traversal of the scrutinee type that dominates the refining unification, and "
+        "every match alternative resets what it recorded before the next alternative or the return.")
     rep.assumptions += ["only operators spelled `#<alphabetic type name><symbol>` are considered"]
     e11.r11b(fb, rep)
+    from . import r2g
+    r2g.run(fb, rep)
